@@ -10,7 +10,7 @@ import os, json
 import vcheck, conc_check
 import C01, C02
 
-HP_KEYS = ["double_dispose", "unretired_dispose", "not_exactly_once"]
+HP_KEYS = ["double_dispose", "unretired_dispose", "not_exactly_once", "kept_unguarded"]
 
 
 class Sub:
